@@ -82,12 +82,21 @@ def run(P: Program, R: Report, tier: str) -> None:
         val = c.args[1] if len(c.args) > 1 else next((k.value for k in c.keywords if k.arg == "value"), None)
         txt = norm(val)
         # resolve a local defined by one assignment
+        cands = [txt]
         if isinstance(val, ast.Name):
             defs = [s for s in ast.walk(fn.node) if isinstance(s, ast.Assign) and any(isinstance(t, ast.Name) and t.id == val.id for t in s.targets)]
-            if len(defs) == 1:
-                txt = norm(defs[0].value)
-        allowed = {"self.node", "0", "self.node if self.added else 0", "0 if not self.added else self.node"}
-        R.check(txt in allowed, "R07.2", fn, c, f"{fn.short} paints with the action's own node id or 0 ({txt})",
+            if defs:
+                cands = [norm(d_.value) for d_ in defs]  # every value the local can hold (conditional expressions are split into branches)
+                txt = " | ".join(sorted(set(cands)))
+
+        def own_or_zero(e: str) -> bool:
+            e = e.strip()
+            if e in ("self.node", "0"):
+                return True
+            m_ = __import__("re").fullmatch(r"(.+) if (.+) else (.+)", e)
+            return bool(m_) and own_or_zero(m_.group(1)) and own_or_zero(m_.group(3))
+
+        R.check(all(own_or_zero(x) for x in cands), "R07.2", fn, c, f"{fn.short} paints with the action's own node id or 0 ({txt})",
                 f"value painted is `{txt}`", via="dataflow")
         cls = prim_methods[fn.qname]
         body = norm(fn.node)
